@@ -31,7 +31,8 @@ P = {
                  "C16_consistent_pair", "C16_sign_sees_one_load", "C16_torn_skeleton_refuted",
                  "C16_conc_token_of_own_section", "C16_conc_hit_same_state", "C16_conc_hit_within_window", "C16_conc_invariant",
                  "C16_conc_rejected_reloads_unobservable", "C16_conc_sequential_is_exec", "C16_conc_nonvacuous",
-                 "C16_conc_F2_pinned_refuted", "C16_conc_return_after_reload"],
+                 "C16_conc_F2_pinned_refuted", "C16_conc_return_after_reload",
+                 "C16_fine_is_atomic", "C16_fine_refines", "C16_fine_token_of_own_section", "C16_fine_nonvacuous"],
     "streams": [{
         "name": "histories", "pkg": _PKG, "test": "TestVerifC16",
         "overlay": _OVERLAY, "eval_module": "Run.Eval_C16", "check_term": _CHECK,
@@ -52,7 +53,7 @@ P = {
     }, {
         "name": "conc", "pkg": _PKG, "test": "TestVerifC16Conc",
         "overlay": _OVERLAY, "eval_module": "Run.Eval_C16Conc", "check_term": "check_conc " + _FX,
-        "n_quick": 150, "n_thorough": 4000, "findings": {}, "shard": 50,
+        "n_quick": 300, "n_thorough": 6000, "findings": {}, "shard": 50,
     }],
     "rule": "histories: a jwt finalizer configuration (key_id absent / an existing id / a near miss (prefix, suffix, other case) / unknown; "
             "signer name; ttl incl. fractional, around the 5s cache leeway and invalid; claims template of 0-4 members, 55% of them "
@@ -74,7 +75,15 @@ P = {
             "issued one after a successful reload or has a template naming a reserved claim; distinct by hash of the generated input. "
             "skeleton: lock/field-access skeleton of jwt_signer.go (plus unlocked `.signer.<field>` accesses anywhere in the package and "
             "escaping pointers) extracted by go/ast on every run. race: 6 workers (half on a shared real memory cache with 3 subjects) x "
-            "Execute + JWKS, one goroutine calling Certificates()/Hash(), against a reloader cycling through 4 generations, under -race.",
+            "Execute + JWKS, one goroutine calling Certificates()/Hash(), against a reloader cycling through 4 generations, under -race. "
+            "exec-skeleton: one event list per path through jwtFinalizer.Execute (signer calls, cch.Get/Set with the provenance of their "
+            "key, AddHeaderForUpstream, returns; other finalizer methods inlined) extracted by go/ast from jwt_finalizer.go on every run, "
+            "with the lock skeleton. conc: 7 corpus schedules + generated ones forced onto the real finalizer — 2-4 Execute calls (mostly "
+            "the same request, 15% rule-level variants) of 5 steps each (Hash section, cache lookup, Sign section, cache store, return; one "
+            "goroutine per call, parked by a gating cache double at entry and exit of Get and Set) interleaved with 1-3 reloads (new "
+            "store / roll-back to an earlier one / refused file), 0-2 JWKS requests, 25% a cache-clock advance around ttl-5s; 55% of the "
+            "shape 'call A parked after k steps, reload, call B runs through, roll-back, A resumes'; non-trivial = at least two tokens, "
+            "overlapping calls and an accepted reload inside a call.",
     "anchors": ["internal/rules/mechanisms/finalizers/jwt_finalizer.go",
                 "internal/rules/mechanisms/finalizers/jwt_signer.go",
                 "internal/keystore/key_store.go", "internal/keystore/entry.go",
@@ -89,13 +98,29 @@ P = {
         "JSON and text/template rendering of the claims template, float64 round trip of numbers (values compared, not spellings)",
         "time: time.Now() inside Sign cannot be injected; the driver brackets each Execute with clock readings and the evaluator "
         "checks iat against the bracket at second granularity; the nanosecond part is inferred from exp",
-        "Go memory model and scheduler: the interleaving theorem is about the lock/field-access skeleton extracted from the source "
-        "by a go/ast walker in the driver (straight-line reading; early returns checked not to leak a lock); sync.RWMutex is assumed to "
-        "exclude writers from readers/writers; races themselves are only exhibited by the -race stress stream",
+        "Go memory model and scheduler: the lock theorem (C16_consistent_pair) is about the lock/field-access skeleton extracted from "
+        "the source by a go/ast walker in the driver (straight-line reading; early returns checked not to leak a lock); sync.RWMutex is "
+        "assumed to exclude writers from readers/writers; races themselves are only exhibited by the -race stress stream",
+        "the programs of the machines: the C16_conc_* theorems take Hash(), signWithHash(), Keys() and the swap in load as atomic "
+        "steps; C16_fine_is_atomic justifies that for the machine one level down (RLock/RUnlock/Lock/Unlock and each access to "
+        "jwk/key/pubKeys as steps, a blocking RWMutex, reloads and JWKS requests as threads) whose programs are hand-written: "
+        "Execute = RLock, jwk, RUnlock, Get, RLock, jwk, key, RUnlock+sign, Set, return; load = parse, Lock, jwk=, key=, pubKeys=, "
+        "Unlock; JWKS = RLock, pubKeys, RUnlock. That the source has this structure is checked on every run on the extracted lock "
+        "skeleton (wf_skeleton: one section per method, reads under RLock, a writer assigns all three fields) and on the extracted event "
+        "skeleton of jwt_finalizer.go (exec_shape: exactly one Hash-like read section, Get with its key, one Sign-like read section "
+        "reading jwk and key, Set with the key derived from it, header; by role, not by name; order/number of reads inside one section "
+        "are not compared — any such section is covered by C16_consistent_pair). Names `signer`, `cache.Ctx`, `Get`, `Set`, "
+        "`AddHeaderForUpstream`, `jwtFinalizer`, `jwtSigner`, `mut`, `jwk`/`key`/`pubKeys` are wired into the extractors; a Go `if` "
+        "containing a return forks a path of Execute, everything else and every inlined callee is read straight-line; sync.RWMutex is "
+        "modelled as: RLock admitted iff no writer holds it, Lock iff nobody holds it (no fairness, no writer preference — safety only)",
+        "the conc stream can park a call only at the cache operations (after its Hash section, after the lookup, after its Sign "
+        "section, after the store); there is no yield point inside the signer or between Sign and the computation of the Set key — "
+        "changes there are caught by the structural checks, not by forced schedules",
         "the cache of the histories is the driver's stub (get/set with expiry on a virtual clock, reloads triggered inside Get); the "
         "real memory cache is used in the race stream only; what is checked is which key and ttl the finalizer hands to the cache",
-        "reloads landing inside Execute are placed at the one point that matters (between cache lookup and Sign); interleavings of "
-        "two concurrent Execute calls with each other are not enumerated (they share only the cache)",
+        "in the histories stream reloads landing inside Execute are placed between cache lookup and Sign only; arbitrary "
+        "interleavings of several Execute calls with reloads are the conc stream's and the C16_conc_* theorems' subject; the twin "
+        "finalizer (a second signer over the same file) is not part of the concurrent machine",
     ],
     "level_text": "Proof (kernel-checked, no axioms). For the model of key-store build, Entry.JWK, jwtSigner.load/Sign/Hash and "
                   "jwtFinalizer.WithConfig/Execute — Execute as it is: cache-key section, cache lookup, any key-store reloads, Sign section, "
@@ -109,15 +134,41 @@ P = {
                   "effective ttl, exact for whole seconds), a reused token is not older than its ttl, and every JWKS answer is free of "
                   "private material and contains the current public keys. Plus: system claims win for any custom claims; variants overlay "
                   "the catalogue configuration; load never panics; for every lock skeleton passing wf_skeleton, every set of calls and "
-                  "every interleaving, one call's reads see one load. Tied to the code by ~600 (quick) / 12000 (thorough) generated "
-                  "histories through the real finalizer, signer, key store, registry and management service per run, by re-extracting "
-                  "and checking the lock skeleton on every run, and by a -race stress run.",
+                  "every interleaving, one call's reads see one load. CONCURRENT EXECUTES (C16_conc_*, machine at critical-section "
+                  "granularity built from the same load/sign/key_of/cache functions; the sequential exec is its one-call case, "
+                  "C16_conc_sequential_is_exec): for ANY number of Execute calls interleaved in ANY order with any reloads (accepted or "
+                  "rejected), JWKS reads and cache time — every returned token, fresh or reused, is exactly what Sign makes for that very "
+                  "request from the signer fields of a moment that is one of the call's own critical sections (its Hash section for a "
+                  "hit, its Sign section otherwise), hence signed with the key active at a moment between the call's start and end, "
+                  "naming its kid/alg, verifying against the key set published then and at every later moment up to the next successful "
+                  "reload (C16_conc_token_of_own_section, by an invariant 'cache ⊆ log of tokens made, each filed under the key of the "
+                  "state and call it was made under', C16_conc_invariant); a cache hit returns a token made under a state with the same "
+                  "kid, algorithm and key as the one the call's Hash section read, for the same issuer/ttl/template/request, filed less "
+                  "than ttl-5s of cache time before (C16_conc_hit_same_state, C16_conc_hit_within_window); rejected reloads leave the "
+                  "whole configuration unchanged (C16_conc_rejected_reloads_unobservable). DOWN TO LOCK OPERATIONS (C16_fine_*): in the "
+                  "machine where RLock/RUnlock/Lock/Unlock and every single access to jwk, key, pubKeys are steps, the RWMutex blocks, "
+                  "and reloads (parse; Lock; three assignments; Unlock) and JWKS requests are threads, every schedule is — by an "
+                  "abstraction function, step for step, with the invariant 'a writer excludes readers and writers; a reader's copies are "
+                  "the current fields; the writer has assigned what it passed' — a schedule of the machine with atomic sections "
+                  "(C16_fine_is_atomic, C16_fine_refines), so for all interleavings at that level a returned token belongs to the "
+                  "moment the call itself releases the read lock of its Hash or Sign section, and the fields then are those of ONE "
+                  "loaded file (C16_fine_token_of_own_section). Tied to the code by ~600 (quick) / 12000 "
+                  "(thorough) generated histories through the real finalizer, signer, key store, registry and management service per "
+                  "run, by ~300 / 6000 schedules of 2-4 concurrent calls forced onto the real finalizer (goroutines parked at the cache "
+                  "operations) and compared with the machine step for step, by re-extracting and checking the lock skeleton and "
+                  "Execute's event skeleton (exec_shape) on every run, and by a -race stress run.",
     "level_note": "Partial: cryptography, PEM/X.509/JSON/template handling and the clock are trusted/observed, not modelled (the issue "
                   "time is inferred from the token and only bracketed by the driver's clock at second granularity, so `times_exact` "
                   "constrains exp relative to iat, not iat itself); the interleaving theorem is about the extracted lock skeleton under an "
                   "idealised RWMutex (field and type names are wired into the extractor; a refactoring to another synchronisation "
-                  "primitive needs the extractor adapted), the Go memory model is not modelled; concurrency of Execute with reloads is "
-                  "modelled by placing reloads between Execute's two critical sections, two concurrent Executes are not interleaved. "
+                  "primitive needs the extractor adapted), the Go memory model is not modelled (sequentially consistent steps); the "
+                  "programs of the concurrent machines (C16/Conc.v, C16/ConcFine.v) are hand-written and tied to the source by the "
+                  "structural checks on the two extracted skeletons, not generated from it; "
+                  "'verifies against the published set at the moment of return' holds only if no reload succeeded since the "
+                  "call's own section (C16_conc_return_after_reload is the counter-example: nothing a lock in the signer could prevent); "
+                  "the reuse window starts at the cache store, time between a call's Sign section and its store is not counted by the "
+                  "code; the twin finalizer is not in the concurrent machine; forced schedules can only park a call at its cache "
+                  "operations. "
                   "Findings C16-F1 (cached token survived a same-kid key change; fix d9caf75) and C16-F2 (token signed after a reload "
                   "filed under the previous key's cache key; fix 186d696) are repaired; the pinned behaviours are documented by "
                   "C16_run_meets_spec_pinned (guards over-approximate the findings' inputs) and C16_F1/F2_pinned_refuted, their witnesses "
